@@ -31,7 +31,7 @@ def split_messages(stream):
     return out, stream[i:]
 
 
-def scenario(seed, n_threads, per_thread, partial, inbound, lines, limit, sizes, close_end=False):
+def scenario(seed, n_threads, per_thread, partial, inbound, lines, limit, sizes, close_end=False, sctp=False):
     import bromelia.transport as TR
     import bromelia.setup as ST
     import bromelia.statemachine as SM
@@ -43,7 +43,9 @@ def scenario(seed, n_threads, per_thread, partial, inbound, lines, limit, sizes,
     s.keep_log = False
     rng = random.Random(seed * 7 + 1)
     log = []
-    sock = simlib.FakeSock(s, partial=(lambda n: rng.choice([1, 2, 3, 7, 19, 20, 21, n // 2 or 1, n, n, n])) if partial else None)
+    sock = (simlib.FakeSctpSock if sctp else simlib.FakeSock)(s, partial=(lambda n: rng.choice([1, 2, 3, 7, 19, 20, 21, n // 2 or 1, n, n, n])) if partial else None)
+    sctp_mods = simlib.FakeSctpModules(lambda: sock)
+    sctp_mods.__enter__()
     real_send = sock.send
 
     def logged_send(data):
@@ -96,7 +98,7 @@ def scenario(seed, n_threads, per_thread, partial, inbound, lines, limit, sizes,
         self.__dict__["_out_pending_value"] = v
     TR.TcpConnection._out_pending = property(_get_pending, _set_pending)
     TR.TcpConnection._set_selector_events_mask, TR.TcpConnection.write, TR.TcpConnection.read = mask, write, read
-    d = Diameter(config=dict(CFG))
+    d = Diameter(config=dict(CFG, TRANSPORT_TYPE="SCTP" if sctp else "TCP"))
     submitted = {}
     last_e2e = {}
     done = []
@@ -223,6 +225,7 @@ def scenario(seed, n_threads, per_thread, partial, inbound, lines, limit, sizes,
     finally:
         s.kill()
         undo()
+        sctp_mods.__exit__()
         ST.SEND_BUFFER_MAXIMUM_SIZE = saved_limit
         TR.TcpConnection._set_selector_events_mask, TR.TcpConnection.write, TR.TcpConnection.read = orig_mask, orig_write, orig_read
         del TR.TcpConnection._out_pending
@@ -324,10 +327,11 @@ def explore(chk, rng, n, tag):
         limit = rng.choice([150, 300, 700]) if small_limit else 0
         sizes = [0, 5, 40] if not small_limit else [0, 5, 40, 120, 260]
         close_end = rng.random() < 0.3
-        res = scenario(seed, n_threads, per_thread, partial, inbound, lines_mode, limit, sizes, close_end)
+        sctp = rng.random() < 0.25            # the SCTP classes (SctpClient: sctp_send / sctp_recv) over a scripted pysctp socket
+        res = scenario(seed, n_threads, per_thread, partial, inbound, lines_mode, limit, sizes, close_end, sctp)
         inp = {"op": "outbound", "seed": seed, "threads": n_threads, "per_thread": per_thread, "partial_writes": partial, "inbound_messages": inbound,
-               "line_level": lines_mode, "batch_limit": limit or 262144, "sizes": sizes, "closed_right_after_submitting": close_end}
-        kind = "%s:%s%s%s" % (tag, "partial" if partial else "whole", ":inbound" if inbound else "", ":small-limit" if small_limit else "")
+               "line_level": lines_mode, "batch_limit": limit or 262144, "sizes": sizes, "closed_right_after_submitting": close_end, "sctp": sctp}
+        kind = "%s:%s%s%s%s" % (tag, "partial" if partial else "whole", ":inbound" if inbound else "", ":small-limit" if small_limit else "", ":sctp" if sctp else "")
         chk.case(inp, kind=kind)
         if len(res["done"]) != n_threads and not res["excs"]:
             chk.count("inconclusive:" + res["status"])
@@ -390,7 +394,7 @@ def replay(path):
         return 0
     i = v["input"]
     limit = 0 if i["batch_limit"] == 262144 else i["batch_limit"]
-    res = scenario(i["seed"], i["threads"], i["per_thread"], i["partial_writes"], i["inbound_messages"], i["line_level"], limit, i["sizes"], i.get("closed_right_after_submitting", False))
+    res = scenario(i["seed"], i["threads"], i["per_thread"], i["partial_writes"], i["inbound_messages"], i["line_level"], limit, i["sizes"], i.get("closed_right_after_submitting", False), i.get("sctp", False))
     now = verdict(res, i["threads"])
     print("scenario: %s" % json.dumps(i))
     print("recorded: %s" % v["what"])
